@@ -30,7 +30,7 @@ Lemma close_all_env' s s1 cbs hang : close_all s = (s1, cbs, hang) -> env_eq s s
 Proof. intros H. pose proof (close_all_env s) as X. rewrite H in X. exact X. Qed.
 
 Lemma do_add_env k a1 a2 a3 s : env_eq s (fst (do_add k a1 a2 a3 s)).
-Proof. unfold do_add. repeat dmatch; cbn [fst]; try apply env_eq_refl.
+Proof. unfold do_add. repeat dmatch; cbn [fst]; try apply env_eq_refl; try (unfold env_eq; cbn; tauto).
   eapply env_eq_trans; [|apply env_eq_setm]. unfold env_eq; cbn; tauto. Qed.
 
 Lemma do_find_env c k r s : env_eq s (fst (do_find c k r s)).
@@ -40,7 +40,8 @@ Proof. unfold do_find.
   repeat dmatch; cbn [fst]; try apply env_eq_refl; try apply H; apply env_eq_setm. Qed.
 
 Lemma do_release_env k r imgs s : env_eq s (fst (do_release k r imgs s)).
-Proof. unfold do_release. dmatch; cbn [fst]; [|apply env_eq_refl]. eapply env_eq_trans; [|apply env_eq_setm]. unfold env_eq; cbn; tauto. Qed.
+Proof. unfold do_release. dmatch; [|apply env_eq_refl]. destruct (ring_full s); [destruct k|]; cbn [fst];
+  (eapply env_eq_trans; [|apply env_eq_setm]); unfold env_eq; cbn; tauto. Qed.
 
 Lemma do_drop_env k r s : env_eq s (fst (do_drop k r s)).
 Proof. rewrite do_drop_eq.
@@ -285,6 +286,7 @@ Proof. intros Hd Hi I W Ht.
   - (* Tick *) inversion Es; subst. cbn in Ht. eexists. split; [reflexivity|]. destruct W. constructor; cbn in *; try congruence; try lia.
   - (* SetDriverHb *) inversion Es; subst. eexists. split; [reflexivity|]. destruct W. constructor; cbn in *; try congruence; try lia.
   - (* SetHbCounter *) inversion Es; subst. eexists. split; [reflexivity|]. destruct W. constructor; cbn in *; try congruence; try lia.
+  - (* SetRingFull *) inversion Es; subst. eexists. split; [reflexivity|]. destruct W. constructor; cbn in *; try congruence; try lia.
   - (* DoWork *) unfold do_work in Es. destruct b.
     + (* BNone *)
       pose proof (dowork_checks c0 tdrv tis c w s s [] Hd Hi W (env_eq_refl s) eq_refl ltac:(intros e []))
